@@ -427,6 +427,23 @@ def rename_spec(spec: "FnSpec", m: dict) -> "FnSpec":
     return sp
 
 
+def outside_inlined(lines: list, pos: int) -> int:
+    """`pos` is an insertion index into `lines` (the hint goes before lines[pos]). Inside the text of an inlined helper
+    (between /*@inl*/ and /*@endinl*/) the helper's parameter names shadow the caller's variables, which the caller's hints
+    talk about: move the insertion point behind the inlined block."""
+    depth, start = 0, None
+    for i, l in enumerate(lines):
+        opens, closes = l.count("/*@inl*/"), l.count("/*@endinl*/")
+        if depth == 0 and opens:
+            start = i
+        depth += opens - closes
+        if depth == 0 and start is not None:
+            if start < pos <= i:
+                return i + 1
+            start = None
+    return pos
+
+
 def remap_anchor(needle: str, nth: int, old_body: str, new_lines: list):
     """The anchor text of a proof hint is gone from the translated body. If the body this hint was last locked against
     (anchors.lock.json) is known, find the line the anchor named THERE and carry it over to the current body through a
@@ -535,7 +552,7 @@ def splice_body(body: str, spec: FnSpec, n_loops: int, key: str, diverge_spec="e
                 if end is None:
                     lost.append(f"{key}: proof hint at anchor {anchor!r} dropped (statement end not found)")
                     continue
-                lines.insert(end + 1, block)
+                lines.insert(outside_inlined(lines, end + 1), block)
                 body = "\n".join(lines)
             elif anchor == "end":
                 i = body.rindex("}")
@@ -559,7 +576,7 @@ def splice_body(body: str, spec: FnSpec, n_loops: int, key: str, diverge_spec="e
                 # walk back to the line that starts the statement
                 while L > 0 and lines[L - 1].strip() and not lines[L - 1].rstrip().endswith((";", "{", "}")):
                     L -= 1
-                lines.insert(L, block)
+                lines.insert(outside_inlined(lines, L), block)
                 body = "\n".join(lines)
             else:
                 raise Undecided(f"{key}: unknown anchor {anchor}")
@@ -670,7 +687,14 @@ def inline_new_helpers(tr: dict, specs: dict, locked_fns: set, force: set = froz
                     ok_all = False
                     pos = m.end()
                     continue
-                rep = "{ " + " ".join(lets) + " " + cand["body"] + " }"
+                if len(lets) > 1:
+                    # all arguments are evaluated before any parameter name is bound (a later argument may mention a
+                    # variable that has the name of an earlier parameter)
+                    names_ = [re.match(r"let (\w+): ", l_).group(1) for l_ in lets]
+                    tys_ = [re.match(r"let \w+: (.*) = ", l_).group(1) for l_ in lets]
+                    args_ = [re.match(r"let \w+: .*? = (.*);$", l_, re.S).group(1) for l_ in lets]
+                    lets = [f"let ({', '.join(names_)}): ({', '.join(tys_)}) = ({', '.join(args_)});"]
+                rep = "/*@inl*/ { " + " ".join(lets) + " " + cand["body"] + " } /*@endinl*/"
                 body = body[:m.start()] + rep + body[close + 1:]
                 pos = m.start() + len(rep)
                 changed = True
@@ -891,6 +915,16 @@ def assemble(unit: dict, scratch: str, passname="A", drop_contracts=frozenset())
                     continue
             sig_changed.add(k_)
     sig_changed |= {k_ for k_ in drop_contracts if k_ in specs}
+    # functions about to be inlined (contract dropped, or new helpers) whose body has guard-style early returns: ask the
+    # translator for the equivalent nesting (rule T19), so that the body becomes a plain block
+    def _needs_nest(f):
+        sp0 = specs.get(f["key"])
+        cand = f["key"] in sig_changed or (f["key"] not in locked_fns and known_fns and not (sp0 and (sp0.contract.strip() or sp0.trusted)))
+        return cand and re.search(r"\breturn\b", f["body"]) and f["key"] not in job.get("nest_returns", [])
+    nest = sorted(f["key"] for f in tr["fns"] if _needs_nest(f))
+    if nest:
+        job["nest_returns"] = sorted(set(job.get("nest_returns", [])) | set(nest))
+        tr = run_translator(job, scratch, unit["name"])
     dropped_contracts = []
     for k_ in sorted(sig_changed):
         labs_ = re.findall(r"//@\s*(\S+)", specs[k_].contract)
